@@ -84,6 +84,8 @@ def handler : Driver.Handler := fun c i => do
     .rows [[toString (all.filter (·.s == 1)).length]],
     .rows [[toString (all.filter (·.w.isSome)).length]],
     .nums (summaryOf all)]
+  if (i.getObjVal? "harness_error").toOption.isSome then
+    return { model := Json.null, k := true, oracle := none, nt := false, tags := ["harness-lost-files"] }
   -- scheduled interleavings (yield points 40..46): every participant must read the whole table
   if let .ok kind := c.getObjValAs? String "sched" then
     let want := summaryOf all
@@ -92,7 +94,9 @@ def handler : Driver.Handler := fun c i => do
     let res : List (String × Option (List Int)) := roles.map fun r =>
       (r, match i.getObjVal? r with | .ok v => (Driver.asIntList v).toOption | .error _ => none)
     let wrong := res.filter fun (_, v) => match v with | some ns => ns != want | none => false
-    let failed := res.filter fun (_, v) => v.isNone
+    -- a participant the harness could not run ({"harness":..}) is not an observation
+    let harnessLost := roles.any fun r => match i.getObjVal? r with | .ok v => (v.getObjVal? "harness").toOption.isSome | .error _ => true
+    let failed := res.filter fun (r, v) => v.isNone && (match i.getObjVal? r with | .ok j => (j.getObjVal? "err").toOption.isSome | .error _ => false)
     let o : Option String :=
       match wrong, failed with
       | (r, _) :: _, _ => some s!"{kind}: participant {r} read WRONG rows"
@@ -101,9 +105,9 @@ def handler : Driver.Handler := fun c i => do
     -- the protocol model's prediction: only the race schedule fails, and only its parked reader (C20_crossprocess_witness)
     let predictedFail : List String := if kind == "xproc-race" && schedOk then ["R"] else []
     let k := wrong.isEmpty && (failed.map (·.1)) == predictedFail || !schedOk && wrong.isEmpty
-    let attr : Option String := if kind == "xproc-race" && schedOk && wrong.isEmpty && (failed.map (·.1)) == ["R"] then some "C20-F1" else none
+    let attr : Option String := if kind == "xproc-race" && wrong.isEmpty && (failed.map (·.1)) == ["R"] then some "C20-F1" else none
     return { model := Json.mkObj [("fails", Json.arr (predictedFail.map Json.str).toArray)], k := k, oracle := o, nt := true,
-             tags := [s!"sched-{kind}"] ++ (if schedOk then [] else ["sched-timeout"]), attr := attr }
+             tags := [s!"sched-{kind}"] ++ (if schedOk && !harnessLost then [] else ["sched-timeout"]), attr := attr }
   let get (name : String) : Option (List Ans) := match i.getObjVal? name with | .ok v => some (parseAnswers v) | .error _ => none
   let modes := ["m0", "auto_nosidecar", "m1cold", "m1warm", "auto_sidecar"]
   let some m0 := get "m0" | throw "impl has no m0 answers (harness error)"
